@@ -278,17 +278,15 @@ def resetPayload : Doc → Doc
   | d => d
 
 /-- `operator=(ValueType)` (Value.hpp:203-206) only sets the tag.  The payload bytes are reinterpreted,
-which is well defined only when they are all zero; `none` otherwise (and for ValuePtr, which would be a
-null pointer). -/
+which is well defined only when they are all zero: that is known for scalars whose 8 payload bytes
+are zero (an empty string or container may still own storage); `none` otherwise (and for ValuePtr,
+which would be a null pointer). -/
 def assignType (k : Nat) (d : Doc) : Option Doc :=
   let zero : Bool := match d with
     | undef | tru | fls | null => true
     | nat 0 => true
     | int 0 => true
     | real 0 => true
-    | str [] => true
-    | arr [] => true
-    | obj 0 [] => true
     | _ => false
   if !zero then none else
   match k with
